@@ -629,7 +629,9 @@ impl Value {
                         operators::LOGICAL_NOT => return Ok(Value::Bool(!expr.to_bool())),
                         operators::NEGATE => {
                             return match expr {
-                                Value::Int(i) => Ok(Value::Int(-i)),
+                                Value::Int(i) => i.checked_neg().map(Value::Int).ok_or(
+                                    ExecutionError::IntegerOverflow("minus", 0i64.into(), i.into()),
+                                ),
                                 Value::Float(f) => Ok(Value::Float(-f)),
                                 value => {
                                     Err(ExecutionError::UnsupportedUnaryOperator("minus", value))
